@@ -21,7 +21,7 @@ REACH = ['gambit.cli.tree:tree_cmd', 'gambit.cluster:hclust', 'gambit.cluster:li
 
 
 def shards(tier, seed):
-	n = 8 if tier == 'quick' else 32
+	n = 16 if tier == 'quick' else 48
 	return [dict(name=f'tree-{i}', kind='tree', sub=i, nrounds=16 if tier == 'quick' else 60) for i in range(n)]
 
 
